@@ -602,3 +602,39 @@ def record_parallel(binp, kind, n, seed, name, jobs=8, extra=None):
             e["driver_seed"] = seed + j
             events.append(e)
     return events
+
+
+def validate_stateful(ctx, name, module, groups, max_parallel=6, timeout=3400):
+    """Stateful trace validation: `groups` is a list of event lists (each a self-contained trace, consumed by a
+    single-chain trace spec with POSTCONDITION Consumed).  Groups are packed into a few files and validated by
+    several TLC processes in parallel.  Returns the list of rejected event ids."""
+    from concurrent.futures import ThreadPoolExecutor
+    wd = os.path.join(WORK, "trace", name)
+    shutil.rmtree(wd, ignore_errors=True)
+    os.makedirs(wd, exist_ok=True)
+    nfiles = max(1, min(max_parallel, len(groups)))
+    files = [[] for _ in range(nfiles)]
+    for i, g in enumerate(groups):
+        files[i % nfiles].extend(g)
+
+    def one(k):
+        evs = files[k]
+        path = os.path.join(wd, f"trace{k}.ndjson")
+        with open(path, "w") as f:
+            for e in evs:
+                f.write(json.dumps(e, separators=(",", ":")) + "\n")
+        cfg = cfg_text(postcondition="Consumed")
+        res = tlc(f"{name}-{k}", module, cfg, workers=1, env_extra={"TRACE": path}, jvm=["-Xss1g", "-XX:+UseParallelGC", "-Xmx3g"],
+                  timeout=timeout)
+        return res, len(evs)
+
+    rejected = []
+    with ThreadPoolExecutor(max_workers=nfiles) as ex:
+        for res, n in ex.map(one, range(nfiles)):
+            if res["violated"]:
+                raise ToolError(f"{module}: unexpected invariant violation")
+            ctx.add_tlc(res, f"{module}: {n} recorded events validated (stateful)")
+            ctx.traces += n
+            for r in cases_from(res["out"], "REJECT"):
+                rejected.append(r["id"])
+    return rejected
